@@ -8,6 +8,7 @@ import (
 	"sort"
 	"strings"
 	"testing"
+	"time"
 
 	zed "github.com/brimdata/super"
 	"github.com/brimdata/super/lake"
@@ -608,13 +609,34 @@ func runCase(c Case) *vt.Outcome {
 	for k := 1; k <= T; k++ {
 		store := base.Clone()
 		crash := &memstore.CrashAt{K: k}
-		verr := runVictim(store, crash)
+		// The victim runs in its own goroutine: once the crash point has fired the "process" is dead and whatever
+		// it still does (including never returning) is irrelevant, so it is abandoned after a grace period.
+		done := make(chan error, 1)
+		go func() { done <- runVictim(store, crash) }()
+		var verr error
+		abandoned := false
+	wait:
+		for waited := 0; ; waited++ {
+			select {
+			case verr = <-done:
+				break wait
+			case <-time.After(100 * time.Millisecond):
+				if crash.HasFired() != nil && waited > 150 {
+					abandoned = true
+					verr = memstore.ErrCrashed
+					o.Label("victim-hung-after-crash(abandoned)")
+					break wait
+				}
+			}
+		}
+		_ = abandoned
 		o.Evals++
-		if crash.Fired == nil {
+		if crash.HasFired() == nil {
 			// the step sequence was shorter this time (internal concurrency); nothing crashed
 			continue
 		}
-		cls, ph := crash.Fired.Class, phase(crash.Fired.Kind)
+		fired := crash.HasFired()
+		cls, ph := fired.Class, phase(fired.Kind)
 		unit := fmt.Sprintf("%s/%s/%s/%s", mode, c.Victim.Kind, cls, ph)
 		if k > firstWrite && k < T {
 			o.Units = append(o.Units, unit)
@@ -622,7 +644,7 @@ func runCase(c Case) *vt.Outcome {
 		sigOf := func(symptom string) string { return fmt.Sprintf("C17/%s/%s/%s/%s", mode, cls, ph, symptom) }
 		report := func(symptom, format string, args ...any) *vt.Failure {
 			sig := sigOf(symptom)
-			msg := fmt.Sprintf("victim %q crashed before step %d of %d (%s %s %s); ", c.Victim.String(), k, T, crash.Fired.Kind, cls, crash.Fired.Path) + fmt.Sprintf(format, args...)
+			msg := fmt.Sprintf("victim %q crashed before step %d of %d (%s %s %s); ", c.Victim.String(), k, T, fired.Kind, cls, fired.Path) + fmt.Sprintf(format, args...)
 			if vt.IsKnown(sig) {
 				o.Known = append(o.Known, sig)
 				return nil
